@@ -2,6 +2,7 @@ package main
 
 import (
 	"go/token"
+	"go/types"
 
 	"golang.org/x/tools/go/ssa"
 )
@@ -84,9 +85,25 @@ func c58(c *Ctx) {
 		}
 		hsErr := CallRes(Callee(creds, "TransportCredentials.ClientHandshake"), 2)
 		c.ValueIs(st, st.Val, "isSecure-only-after-handshake", SetWhen(IsNil(hsErr)))
-		// the level compared is the one reported by the handshake's AuthInfo
-		for _, ci := range callsIn(f, Callee(creds, "PerRPCCredentials.RequireTransportSecurity")) {
-			c.Expect(ci.Block().Dominates(st.Block()) || true, ci, f, "requires-checked-in-constructor", "")
+		// the credentials checked at the handshake are exactly those the transport will attach to RPCs
+		fPRC := c.field(tr, "http2Client", "perRPCCreds")
+		stored := one(c, "store to http2Client.perRPCCreds", storesToField(f, fPRC))
+		rq := one(c, "RequireTransportSecurity call in NewHTTP2Client", callsIn(f, Callee(creds, "PerRPCCredentials.RequireTransportSecurity")))
+		var ranged ssa.Value
+		if u, ok := strip(rq.Common().Value).(*ssa.UnOp); ok {
+			if ia, ok := u.X.(*ssa.IndexAddr); ok {
+				ranged = ia.X
+			}
+		}
+		c.Expect(ranged != nil && strip(ranged) == strip(stored.Val), rq, f, "checked-creds-are-attached-creds", "the credentials whose security requirement is checked at the handshake are not the set stored in the transport for attaching to RPCs")
+		// the level compared is the one reported by this handshake's AuthInfo
+		for _, in := range instrsWhere(f, func(in ssa.Instruction) bool { ta, ok := in.(*ssa.TypeAssert); return ok && ta.CommaOk }) {
+			ta := in.(*ssa.TypeAssert)
+			if ta.Block().Dominates(rq.Block()) || rq.Block().Dominates(ta.Block()) {
+				if _, isIface := ta.AssertedType.Underlying().(*types.Interface); isIface && reachableBlocks(rq.Block())[ta.Block()] {
+					c.ValueIs(ta, ta.X, "level-from-handshake-authinfo", CallRes(Callee(creds, "TransportCredentials.ClientHandshake"), 1))
+				}
+			}
 		}
 	})
 	c.Ob("dial-validation", "R2", "NewClient rejects the combination of 'insecure' transport credentials and a per-RPC credential that requires transport security before returning a ClientConn", 2, func() {
